@@ -12,6 +12,7 @@ RULE = ("chains of 1e3 / 1e4 / 5e4 (thorough 2e5) sequential ops of mixed kinds 
         "(WeakSet registry, after gc.collect()) sampled every 10% - it must not grow; weak references to operands of untracked results must "
         "die. distinct key = (scenario, size, op mix seed); non-trivial = size >= 1000")
 RULE += (' Added after the seeded rounds: detach()-separated segments, changing Python scalars, nested no_grad, backward() inside no_grad, matmul-only chains, dropout noise loops, roll-outs of a frozen model, a gradient argument that itself has 20000 recorded ops behind it, a bounded work probe (library source lines executed) on ladders of reused intermediates before the deep ladder is attempted, and (thorough only) CPU time at 1e5 / 4e5 ops.')
+RULE += (" Round 6 / reach monitor: a rotating catalogue of 40 ops (views, element-wise, reductions, frozen bias-free layers, pooling, inference batch norm) applied to a named carried tensor in untracked loops, judged on live tensors and (loops >= 20000 updates) on traced memory held.")
 ASSUMPTIONS = ["linearity is decided on counted Python calls, never on wall-clock time; the wall-clock watchdog only makes a run inconclusive",
                "thorough tier only: C-level super-linear work (invisible to call counts) is decided on CPU time (time.thread_time, gc disabled) of backward at 1e5 vs 4e5 ops; "
                "a ratio above 7 (linear: 4) is a violation only if a second independent measurement reproduces it",
